@@ -112,7 +112,16 @@ package main
 // blocking descriptor - the classification deadline of C03 and the relay's stall timeouts depend on it), and the
 // handler is given this very connection together with the original destination read from its descriptor (C02: the
 // registration lookup is scoped to that destination).
+// C17 (the accept-side wrapper's own log lines): an error of the connection itself - File() fails with a *net.OpError
+// whose text names both endpoints, e.g. under descriptor exhaustion - is logged only after generalizeErr has stripped it;
+// errors of the raw system calls (getsockopt, SetNonblock) are errno values and carry no address.
+//@ import os "os"
+//@ func (c *net.conn) File() (*os.File, error)
+//@   ensures netStackErr(result1)
+//@   assigns nothing
 //@ func (cm *connManager) handleNewConn(regManager *cj.RegistrationManager, clientConn *net.TCPConn)
+//@   requires addrFree(errConnReset) && addrFree(errConnRefused) && addrFree(errConnAborted) && addrFree(errUnreachable) && addrFree(errConnTimeout) && addrFree(errNetOp) && addrFree(errConnClosed)
+//@   atcall Errorln#1 before: assert @C17: len(arg1) == 2 && (arg1[1] == nil || addrFree(arg1[1]))
 //@   atcall net.conn).Close before: snap closeScheduled := true
 //@   atcall net.conn).File before: assert @C03: defined(closeScheduled)
 //@   atcall getOriginalDst after: snap dst := res0
